@@ -271,7 +271,7 @@ func ruleU3(c *Ctx, id string) {
 				R.Fail(id, fmt.Sprintf("%sVerf#%d from the server instance", key, i+1), P.Pos(st.Pos()), "the verifier is a field of the Nfs object", "the verifier does not come from per-instance state (constant or per-request value)")
 				continue
 			}
-			okW, src, coarse := true, "", ""
+			okW, src, coarse, stale := true, "", "", ""
 			for _, f2 := range P.RepoFuncs("nfs") {
 				for _, w := range FieldWrites(f2) {
 					if w.Type == V.Nfs && w.Field == fl {
@@ -284,7 +284,18 @@ func ruleU3(c *Ctx, id string) {
 									if cal := cl.Call.StaticCallee(); cal != nil && funcPkg(cal) != nil {
 										pp := funcPkg(cal).Path()
 										// sources fine enough to differ between two instances started in quick succession
-										if (pp == "time" && cal.Name() == "UnixNano") || pp == "math/rand" || pp == "crypto/rand" {
+										if pp == "time" && cal.Name() == "UnixNano" {
+											// the clock must be read for this instance: time.Now() on the way, not a time kept in a
+											// package-level variable (one value per process, shared by every instance made in it)
+											isNow := func(f *ssa.Function) bool {
+												return f != nil && f.Name() == "Now" && funcPkg(f) != nil && funcPkg(f).Path() == "time"
+											}
+											if okN, nn := derivesOnlyFrom(cl.Call.Args[0], isNow, 0); okN && nn > 0 {
+												src = pp + "." + cal.Name()
+											} else {
+												stale = "time.UnixNano of a value that is not read from the clock here (a package-level variable?)"
+											}
+										} else if pp == "math/rand" || pp == "crypto/rand" {
 											src = pp + "." + cal.Name()
 										} else if pp == "time" && (cal.Name() == "Unix" || cal.Name() == "UnixMilli" || cal.Name() == "UnixMicro") {
 											coarse = cal.Name()
@@ -310,7 +321,7 @@ func ruleU3(c *Ctx, id string) {
 				}
 				R.Check(P.NewAlways(isSt).Func(ctor), id, fmt.Sprintf("%sVerf#%d set in every instance", key, i+1), P.Pos(ctor.Pos()), "MakeNfs stores Nfs."+fl+" on every path", "always-performs summary", "a path through MakeNfs (e.g. recovery of an existing file system) leaves the verifier zero: every restarted instance announces the same verifier and a client cannot detect that its unstable data was lost")
 			}
-			R.Check(okW && src != "" && coarse == "", id, fmt.Sprintf("%sVerf#%d per-instance provenance", key, i+1), P.Pos(st.Pos()), "Nfs."+fl+" is written only during construction, from a nanosecond clock or a random source", "constructor-only writer; source "+src, "the verifier is the same in every instance, changes while serving, or comes from a coarse clock (time."+coarse+"): two instances started in quick succession share it and a client cannot detect lost unstable data")
+			R.Check(okW && src != "" && coarse == "" && stale == "", id, fmt.Sprintf("%sVerf#%d per-instance provenance", key, i+1), P.Pos(st.Pos()), "Nfs."+fl+" is written only during construction, from a nanosecond clock or a random source", "constructor-only writer; source "+src, "the verifier is the same in every instance, changes while serving, or comes from a coarse clock (time."+coarse+"): two instances started in quick succession share it and a client cannot detect lost unstable data")
 		}
 	}
 }
